@@ -403,3 +403,568 @@ Proof.
     destruct (IH (measure s1) ltac:(lia) _ _ eq_refl H1) as (ls' & s' & r & Hrun & Hr).
     exists (l :: ls'), s', r. split; [cbn [run]; rewrite Hs; exact Hrun|exact Hr].
 Qed.
+
+(* ---------------- virtual time ---------------- *)
+
+Lemma list_min_spec l m : list_min l = Some m -> In m l /\ forall x, In x l -> (m <= x)%N.
+Proof.
+  revert m; induction l as [|x l IH]; intros m H; [discriminate|]. cbn [list_min] in H.
+  destruct (list_min l) as [m0|] eqn:Hl.
+  - inversion H; subst m. destruct (IH _ eq_refl) as [Hin Hle]. split.
+    + destruct (N.min_spec x m0) as [[_ ->]|[_ ->]]; [left; reflexivity|right; exact Hin].
+    + intros y [<-|Hy]; [apply N.le_min_l|]. specialize (Hle _ Hy). pose proof (N.le_min_r x m0). lia.
+  - inversion H; subst m. destruct l; [|cbn [list_min] in Hl; destruct (list_min l); discriminate].
+    split; [left; reflexivity|]. intros y [<-|[]]. lia.
+Qed.
+
+Lemma list_min_none l : list_min l = None -> l = [].
+Proof. destruct l as [|x l]; [reflexivity|]. cbn [list_min]. destruct (list_min l); discriminate. Qed.
+
+Definition finS (fs : fibers) (sts : list N) (k : nat) : N := (nth k sts 0 + fiber_dur fs k)%N.
+
+Lemma fin_finS fs t k : fin fs t k = finS fs (starts t) k.
+Proof. reflexivity. Qed.
+
+Lemma finS_snoc fs sts x k : k < List.length sts -> finS fs (sts ++ [x]) k = finS fs sts k.
+Proof. intros H. unfold finS. rewrite app_nth1 by exact H. reflexivity. Qed.
+
+Lemma finS_new fs sts x : finS fs (sts ++ [x]) (List.length sts) = (x + fiber_dur fs (List.length sts))%N.
+Proof. unfold finS. rewrite app_nth2 by lia. rewrite Nat.sub_diag. reflexivity. Qed.
+
+Lemma event_times_In fs t x :
+  In x (event_times fs t) <->
+  (sleep (ts t) = Armed /\ x = deadline t) \/ (exists k, In k (running (ts t)) /\ x = fin fs t k).
+Proof.
+  unfold event_times. rewrite in_app_iff, in_map_iff. split.
+  - intros [H|[k [Hk Hin]]].
+    + destruct (sleep (ts t)); [destruct H as [<-|[]]; left; auto|destruct H].
+    + right. exists k. auto.
+  - intros [[Hs ->]|[k [Hin ->]]].
+    + left. rewrite Hs. left; reflexivity.
+    + right. exists k. auto.
+Qed.
+
+Lemma ready_In fs t tn l :
+  In l (ready fs t tn) <->
+  (l = Timer /\ sleep (ts t) = Armed /\ deadline t = tn) \/
+  (exists k, l = Complete k (fiber_res fs k) /\ In k (running (ts t)) /\ fin fs t k = tn).
+Proof.
+  unfold ready. rewrite in_app_iff, in_map_iff. split.
+  - intros [H|[k [Hk Hin]]].
+    + destruct (sleep (ts t)); [|destruct H].
+      destruct (N.eqb_spec (deadline t) tn); [destruct H as [<-|[]]; left; auto|destruct H].
+    + apply filter_In in Hin. destruct Hin as [Hin He]. apply N.eqb_eq in He.
+      right. exists k. auto.
+  - intros [(-> & Hs & Hd)|(k & -> & Hin & Hf)].
+    + left. rewrite Hs. rewrite (proj2 (N.eqb_eq _ _) Hd). left; reflexivity.
+    + right. exists k. split; [reflexivity|]. apply filter_In. split; [exact Hin|]. apply N.eqb_eq. exact Hf.
+Qed.
+
+Definition completed (s : state) (k : nat) : Prop := k < started s /\ ~ In k (running s).
+
+Lemma started_cases s k : k < started s -> In k (running s) \/ completed s k.
+Proof. intros H. destruct (in_dec Nat.eq_dec k (running s)); [left|right; split]; assumption. Qed.
+
+(* the property on an observation, as a proposition *)
+Definition PropObs (max : nat) (fs : fibers) (sts : list N) (r : rres) (e : N) : Prop :=
+  let n := List.length sts in
+  1 <= n <= 1 + max /\
+  ((exists j, j < n /\ is_real (fiber_res fs j) = true /\ fiber_res fs j = Some r /\ finS fs sts j = e /\
+      forall k, k < n -> is_real (fiber_res fs k) = true -> (e <= finS fs sts k)%N)
+   \/
+   ((forall k, k < n -> is_real (fiber_res fs k) = false) /\
+    (forall k, k < n -> (finS fs sts k <= e)%N) /\
+    (exists k, k < n /\ finS fs sts k = e) /\
+    (n = 1 + max \/ exists k, k < n /\ is_exhausted (fiber_res fs k) = true) /\
+    (((forall k, k < n -> is_ignorable (fiber_res fs k) = false) /\ r = Err EmptyPlan)
+     \/
+     (exists j, j < n /\ is_ignorable (fiber_res fs j) = true /\ fiber_res fs j = Some r /\
+        forall k, k < n -> is_ignorable (fiber_res fs k) = true -> (finS fs sts k <= finS fs sts j)%N)))).
+
+Record TInv (max : nat) (fs : fibers) (t : tstate) : Prop := mkTInv {
+  t_run : run (init max) (rev (hist t)) = Some (ts t);
+  t_len : List.length (starts t) = started (ts t);
+  t_fut : returned (ts t) = None -> forall k, In k (running (ts t)) -> (now t <= fin fs t k)%N;
+  t_dl : returned (ts t) = None -> sleep (ts t) = Armed -> (now t <= deadline t)%N;
+  t_past : forall k, completed (ts t) k -> (fin fs t k <= now t)%N;
+  t_nonreal : returned (ts t) = None ->
+      forall k, completed (ts t) k -> is_real (fiber_res fs k) = false;
+  t_lasterr : returned (ts t) = None ->
+      match last_error (ts t) with
+      | None => forall k, completed (ts t) k -> is_ignorable (fiber_res fs k) = false
+      | Some r => exists j, completed (ts t) j /\ is_ignorable (fiber_res fs j) = true /\
+                    fiber_res fs j = Some r /\
+                    forall k, completed (ts t) k -> is_ignorable (fiber_res fs k) = true ->
+                              (fin fs t k <= fin fs t j)%N
+      end;
+  t_exh : returned (ts t) = None ->
+      started (ts t) + retries (ts t) = 1 + max \/
+      (retries (ts t) = 0 /\ exists k, completed (ts t) k /\ is_exhausted (fiber_res fs k) = true);
+  t_ret : forall r, returned (ts t) = Some r -> PropObs max fs (starts t) r (now t)
+}.
+
+Lemma tinv_init max interval fs : TInv max fs (tinit max interval).
+Proof.
+  constructor; cbn.
+  - reflexivity.
+  - reflexivity.
+  - intros _ k [<-|[]]. apply N.le_0_l.
+  - intros _ _. apply N.le_0_l.
+  - intros k [Hlt Hnin]. exfalso. apply Hnin. left. cbn in Hlt. lia.
+  - intros _ k [Hlt Hnin]. exfalso. apply Hnin. left. cbn in Hlt. lia.
+  - intros _ k [Hlt Hnin]. exfalso. apply Hnin. left. cbn in Hlt. lia.
+  - intros _. left. lia.
+  - discriminate.
+Qed.
+
+Lemma tinv_now_le max fs t tn :
+  TInv max fs t -> returned (ts t) = None -> list_min (event_times fs t) = Some tn ->
+  (now t <= tn)%N /\ forall x, In x (event_times fs t) -> (tn <= x)%N.
+Proof.
+  intros T Hret Hmin. destruct (list_min_spec _ _ Hmin) as [Hin Hle]. split; [|exact Hle].
+  apply event_times_In in Hin. destruct Hin as [[Hs ->]|[k [Hk ->]]].
+  - apply (t_dl _ _ _ T Hret Hs).
+  - apply (t_fut _ _ _ T Hret _ Hk).
+Qed.
+
+Lemma tinv_timer max interval fs t tn t' :
+  TInv max fs t -> returned (ts t) = None -> list_min (event_times fs t) = Some tn ->
+  sleep (ts t) = Armed -> deadline t = tn ->
+  tstep interval t Timer tn = Some t' -> TInv max fs t'.
+Proof.
+  intros T Hret Hmin Hsl Hdl Hstep.
+  destruct (tinv_now_le _ _ _ _ T Hret Hmin) as [Hnow Hle].
+  destruct T as [Trun Tlen Tfut Tdl Tpast Tnr Tle Tex Tret].
+  pose proof (inv_reachable _ _ _ Trun) as I.
+  destruct t as [s nw dl sts h]. cbn [ts now deadline starts hist] in *.
+  unfold tstep in Hstep. cbn [ts now deadline starts hist] in Hstep.
+  destruct (step s Timer) as [s'|] eqn:Hs; [|discriminate].
+  assert (Hrun' : run (init max) (rev (Timer :: h)) = Some s').
+  { cbn [rev]. rewrite run_snoc, Trun. exact Hs. }
+  unfold step in Hs. rewrite Hret in Hs. unfold on_timer in Hs. rewrite Hsl in Hs.
+  destruct (retries s) as [|r] eqn:Hr; inversion Hs; subst s'; clear Hs;
+    cbn [started] in Hstep.
+  - (* no retry left: the sleep is not re-armed *)
+    rewrite Nat.eqb_refl in Hstep. inversion Hstep; subst t'; clear Hstep.
+    constructor; unfold completed, fin, finS in *;
+      cbn [ts now deadline starts hist running retries sleep started returned last_error] in *.
+    + exact Hrun'.
+    + exact Tlen.
+    + intros _ k Hk. apply Hle. apply event_times_In. right. exists k. split; [exact Hk|reflexivity].
+    + discriminate.
+    + intros k Hk. specialize (Tpast k Hk). lia.
+    + exact Tnr.
+    + exact Tle.
+    + intros _. destruct (Tex Hret) as [H|H]; [left; lia|right; exact H].
+    + intros r0 Hr0. congruence.
+  - (* a speculative execution is started now *)
+    replace (S (started s) =? started s) with false in Hstep by (symmetry; apply Nat.eqb_neq; lia).
+    inversion Hstep; subst t'; clear Hstep.
+    assert (Hcomp : forall k, (k < S (started s) /\ ~ In k (running s ++ [started s])) <->
+                              (k < started s /\ ~ In k (running s))).
+    { intros k. rewrite in_app_iff. cbn [In]. split.
+      - intros [Hlt Hn]. assert (k <> started s) by (intros ->; apply Hn; right; left; reflexivity).
+        split; [lia|]. intros Hin; apply Hn; left; exact Hin.
+      - intros [Hlt Hn]. split; [lia|]. intros [Hin|[He|[]]]; [exact (Hn Hin)|lia]. }
+    assert (Hfin : forall k, k < started s -> finS fs (sts ++ [tn]) k = finS fs sts k).
+    { intros k Hk. apply finS_snoc. lia. }
+    constructor; unfold completed, fin, finS in *;
+      cbn [ts now deadline starts hist running retries sleep started returned last_error] in *.
+    + exact Hrun'.
+    + rewrite app_length. cbn [List.length]. lia.
+    + intros _ k Hk. apply in_app_or in Hk. destruct Hk as [Hk|[<-|[]]].
+      * rewrite Hfin by (apply (inv_lt _ _ _ I); exact Hk).
+        apply Hle. apply event_times_In. right. exists k. split; [exact Hk|reflexivity].
+      * rewrite <- Tlen. pose proof (finS_new fs sts tn) as Hnew. unfold finS in Hnew. rewrite Hnew. lia.
+    + intros _ _. lia.
+    + intros k Hk. apply Hcomp in Hk. rewrite Hfin by tauto. specialize (Tpast k Hk). lia.
+    + intros _ k Hk. apply Hcomp in Hk. apply Tnr; auto.
+    + intros _. specialize (Tle Hret). destruct (last_error s) as [r0|].
+      * destruct Tle as (j & Hj & Hi & Hres & Hmax). exists j. split; [apply Hcomp; exact Hj|].
+        split; [exact Hi|]. split; [exact Hres|]. intros k Hk Hik. apply Hcomp in Hk.
+        rewrite !Hfin by tauto. apply Hmax; assumption.
+      * intros k Hk. apply Hcomp in Hk. apply Tle. exact Hk.
+    + intros _. destruct (Tex Hret) as [H|[H _]]; [left; lia|lia].
+    + intros r0 Hr0. congruence.
+Qed.
+
+Lemma on_complete_started s f o s' : on_complete s f o = Some s' -> started s' = started s.
+Proof.
+  unfold on_complete. destruct (mem f (running s)); [|discriminate].
+  assert (Hfc : forall m, started (finish_check m) = started m).
+  { intros m. unfold finish_check. destruct (running m); [destruct (retries m)|]; reflexivity. }
+  destruct o as [r|]; [destruct (can_be_ignored r)|]; intros H; inversion H; subst s';
+    rewrite ?Hfc; reflexivity.
+Qed.
+
+Lemma tinv_complete max interval fs t tn k t' :
+  TInv max fs t -> returned (ts t) = None -> list_min (event_times fs t) = Some tn ->
+  In k (running (ts t)) -> fin fs t k = tn ->
+  tstep interval t (Complete k (fiber_res fs k)) tn = Some t' -> TInv max fs t'.
+Proof.
+  intros T Hret Hmin Hk Hfk Hstep.
+  destruct (tinv_now_le _ _ _ _ T Hret Hmin) as [Hnow Hle].
+  destruct T as [Trun Tlen Tfut Tdl Tpast Tnr Tle Tex Tret].
+  pose proof (inv_reachable _ _ _ Trun) as I.
+  destruct t as [s nw dl sts h]. cbn [ts now deadline starts hist] in *.
+  unfold tstep in Hstep. cbn [ts now deadline starts hist] in Hstep.
+  destruct (step s (Complete k (fiber_res fs k))) as [s'|] eqn:Hs; [|discriminate].
+  assert (Hrun' : run (init max) (rev (Complete k (fiber_res fs k) :: h)) = Some s').
+  { cbn [rev]. rewrite run_snoc, Trun. exact Hs. }
+  unfold step in Hs. rewrite Hret in Hs.
+  rewrite (on_complete_started _ _ _ _ Hs), Nat.eqb_refl in Hstep.
+  inversion Hstep; subst t'; clear Hstep.
+  pose proof (inv_lt _ _ _ I _ Hk) as Hklt.
+  pose proof (inv_bound _ _ _ I) as Hbound.
+  assert (Hcomp : forall j, (j < started s /\ ~ In j (remove k (running s))) <->
+                            ((j < started s /\ ~ In j (running s)) \/ j = k)).
+  { intros j. rewrite remove_In. split.
+    - intros [Hlt Hn]. destruct (Nat.eq_dec j k) as [->|Hne]; [right; reflexivity|].
+      left. split; [exact Hlt|]. intros Hin. apply Hn. split; assumption.
+    - intros [[Hlt Hn]| ->]; (split; [assumption|]); intros [Hin Hne]; [exact (Hn Hin)|congruence]. }
+  assert (Hev : forall j, In j (running s) -> (tn <= finS fs sts j)%N).
+  { intros j Hj. apply Hle. apply event_times_In. right. exists j. split; [exact Hj|reflexivity]. }
+  unfold completed, fin, finS in *. cbn [ts now deadline starts hist] in *.
+  assert (Hpast : forall j, j < started s /\ ~ In j (running s) -> (nth j sts 0 + fiber_dur fs j <= tn)%N).
+  { intros j Hj. specialize (Tpast j Hj). lia. }
+  (* every started execution is the completing one, an earlier completed one, or still running *)
+  assert (Hsplit : forall j, j < started s ->
+             j = k \/ (j < started s /\ ~ In j (running s)) \/ (In j (running s) /\ j <> k)).
+  { intros j Hj. destruct (Nat.eq_dec j k) as [->|Hne]; [left; reflexivity|].
+    destruct (in_dec Nat.eq_dec j (running s)); [right; right|right; left]; auto. }
+  unfold on_complete in Hs.
+  replace (mem k (running s)) with true in Hs by (symmetry; apply mem_In; exact Hk).
+  destruct (fiber_res fs k) as [r|] eqn:Hres.
+  - destruct (can_be_ignored r) eqn:Hign; rewrite can_be_ignored_spec in Hign.
+    + (* ignorable *)
+      assert (Hnr : is_real (fiber_res fs k) = false).
+      { rewrite Hres, is_real_ignorable_exhausted, Hign. reflexivity. }
+      inversion Hs; subst s'; clear Hs. unfold finish_check in *.
+      cbn [running retries sleep started returned last_error] in *.
+      destruct (remove k (running s)) as [|g rest] eqn:Hrem; [destruct (retries s) as [|rr] eqn:Hr|].
+      * (* last one, no retry left: the call returns this error *)
+        constructor; unfold completed, fin; cbn [ts now deadline starts hist running retries sleep started returned last_error].
+        -- exact Hrun'.
+        -- exact Tlen.
+        -- discriminate.
+        -- discriminate.
+        -- intros j Hj. apply Hcomp in Hj. destruct Hj as [Hj| ->]; [apply Hpast; exact Hj|lia].
+        -- discriminate.
+        -- discriminate.
+        -- discriminate.
+        -- intros r0 Hr0. inversion Hr0; subst r0; clear Hr0. unfold PropObs. rewrite Tlen.
+           assert (Hall : forall j, j < started s -> j = k \/ (j < started s /\ ~ In j (running s))).
+           { intros j Hj. destruct (Hsplit j Hj) as [H|[H|[Hin Hne]]]; auto.
+             exfalso. assert (Hx : In j (remove k (running s))) by (apply remove_In; auto).
+             rewrite Hrem in Hx. destruct Hx. }
+           split; [lia|]. right. repeat split.
+           ++ intros j Hj. destruct (Hall j Hj) as [->|Hc]; [exact Hnr|apply Tnr; auto].
+           ++ intros j Hj. unfold finS. destruct (Hall j Hj) as [->|Hc]; [lia|apply Hpast; exact Hc].
+           ++ exists k. split; [exact Hklt|exact Hfk].
+           ++ destruct (Tex Hret) as [H|[_ (j & Hj & He)]]; [left; lia|right; exists j; tauto].
+           ++ right. exists k. split; [exact Hklt|]. split; [rewrite Hres; exact Hign|].
+              split; [exact Hres|]. intros j Hj _. unfold finS.
+              destruct (Hall j Hj) as [->|Hc]; [lia|]. specialize (Hpast j Hc). lia.
+      * (* a retry is left: wait for the timer *)
+        constructor; unfold completed, fin; cbn [ts now deadline starts hist running retries sleep started returned last_error];
+          rewrite ?Hr.
+        -- exact Hrun'.
+        -- exact Tlen.
+        -- intros _ j [].
+        -- intros _ Hsl. specialize (Hle dl). apply Hle. apply event_times_In. left. auto.
+        -- intros j Hj. apply Hcomp in Hj. destruct Hj as [Hj| ->]; [apply Hpast; exact Hj|lia].
+        -- intros _ j Hj. apply Hcomp in Hj. destruct Hj as [Hj| ->]; [apply Tnr; auto|exact Hnr].
+        -- intros _. exists k. split; [apply Hcomp; right; reflexivity|].
+           split; [rewrite Hres; exact Hign|]. split; [exact Hres|].
+           intros j Hj _. apply Hcomp in Hj.
+           destruct Hj as [Hj| ->]; [specialize (Hpast j Hj); lia|lia].
+        -- intros _. destruct (Tex Hret) as [H|[H _]]; [left; exact H|lia].
+        -- discriminate.
+      * (* others are still running *)
+        constructor; unfold completed, fin; cbn [ts now deadline starts hist running retries sleep started returned last_error].
+        -- exact Hrun'.
+        -- exact Tlen.
+        -- intros _ j Hj. rewrite <- Hrem in Hj. apply remove_In in Hj. apply Hev. tauto.
+        -- intros _ Hsl. specialize (Hle dl). apply Hle. apply event_times_In. left. auto.
+        -- intros j Hj. apply Hcomp in Hj. destruct Hj as [Hj| ->]; [apply Hpast; exact Hj|lia].
+        -- intros _ j Hj. apply Hcomp in Hj. destruct Hj as [Hj| ->]; [apply Tnr; auto|exact Hnr].
+        -- intros _. exists k. split; [apply Hcomp; right; reflexivity|].
+           split; [rewrite Hres; exact Hign|]. split; [exact Hres|].
+           intros j Hj _. apply Hcomp in Hj.
+           destruct Hj as [Hj| ->]; [specialize (Hpast j Hj); lia|lia].
+        -- intros _. destruct (Tex Hret) as [H|[H (j & Hj & He)]]; [left; exact H|].
+           right. split; [exact H|]. exists j. split; [apply Hcomp; left; exact Hj|exact He].
+        -- discriminate.
+    + (* a real answer *)
+      assert (Hre : is_real (fiber_res fs k) = true).
+      { rewrite Hres, is_real_ignorable_exhausted, Hign. reflexivity. }
+      inversion Hs; subst s'; clear Hs.
+      constructor; unfold completed, fin; cbn [ts now deadline starts hist running retries sleep started returned last_error].
+      * exact Hrun'.
+      * exact Tlen.
+      * discriminate.
+      * discriminate.
+      * intros j Hj. apply Hcomp in Hj. destruct Hj as [Hj| ->]; [apply Hpast; exact Hj|lia].
+      * discriminate.
+      * discriminate.
+      * discriminate.
+      * intros r0 Hr0. inversion Hr0; subst r0; clear Hr0. unfold PropObs. rewrite Tlen.
+        split; [lia|]. left. exists k. split; [exact Hklt|]. split; [exact Hre|]. split; [exact Hres|].
+        split; [exact Hfk|]. intros j Hj Hjr. unfold finS.
+        destruct (Hsplit j Hj) as [->|[Hc|[Hin _]]]; [lia| |apply Hev; exact Hin].
+        rewrite (Tnr Hret j Hc) in Hjr. discriminate.
+  - (* the plan is exhausted *)
+    assert (Hnr : is_real (fiber_res fs k) = false) by (rewrite Hres; reflexivity).
+    assert (Hni : is_ignorable (fiber_res fs k) = false) by (rewrite Hres; reflexivity).
+    inversion Hs; subst s'; clear Hs. unfold finish_check in *.
+    cbn [running retries sleep started returned last_error] in *.
+    destruct (remove k (running s)) as [|g rest] eqn:Hrem.
+    + constructor; unfold completed, fin; cbn [ts now deadline starts hist running retries sleep started returned last_error].
+      * exact Hrun'.
+      * exact Tlen.
+      * discriminate.
+      * discriminate.
+      * intros j Hj. apply Hcomp in Hj. destruct Hj as [Hj| ->]; [apply Hpast; exact Hj|lia].
+      * discriminate.
+      * discriminate.
+      * discriminate.
+      * intros r0 Hr0. inversion Hr0; subst r0; clear Hr0. unfold PropObs. rewrite Tlen.
+        assert (Hall : forall j, j < started s -> j = k \/ (j < started s /\ ~ In j (running s))).
+        { intros j Hj. destruct (Hsplit j Hj) as [H|[H|[Hin Hne]]]; auto.
+          exfalso. assert (Hx : In j (remove k (running s))) by (apply remove_In; auto).
+          rewrite Hrem in Hx. destruct Hx. }
+        split; [lia|]. right. repeat split.
+        -- intros j Hj. destruct (Hall j Hj) as [->|Hc]; [exact Hnr|apply Tnr; auto].
+        -- intros j Hj. unfold finS. destruct (Hall j Hj) as [->|Hc]; [lia|apply Hpast; exact Hc].
+        -- exists k. split; [exact Hklt|exact Hfk].
+        -- right. exists k. split; [exact Hklt|rewrite Hres; reflexivity].
+        -- specialize (Tle Hret). destruct (last_error s) as [r1|]; cbn [or_empty_plan].
+           ++ right. destruct Tle as (j & Hj & Hi & Hrj & Hmax). exists j.
+              split; [tauto|]. split; [exact Hi|]. split; [exact Hrj|].
+              intros j' Hj' Hi'. unfold finS. destruct (Hall j' Hj') as [->|Hc]; [congruence|].
+              apply Hmax; assumption.
+           ++ left. split; [|reflexivity]. intros j Hj.
+              destruct (Hall j Hj) as [->|Hc]; [exact Hni|apply Tle; exact Hc].
+    + constructor; unfold completed, fin; cbn [ts now deadline starts hist running retries sleep started returned last_error].
+      * exact Hrun'.
+      * exact Tlen.
+      * intros _ j Hj. rewrite <- Hrem in Hj. apply remove_In in Hj. apply Hev. tauto.
+      * intros _ Hsl. specialize (Hle dl). apply Hle. apply event_times_In. left. auto.
+      * intros j Hj. apply Hcomp in Hj. destruct Hj as [Hj| ->]; [apply Hpast; exact Hj|lia].
+      * intros _ j Hj. apply Hcomp in Hj. destruct Hj as [Hj| ->]; [apply Tnr; auto|exact Hnr].
+      * intros _. specialize (Tle Hret). destruct (last_error s) as [r1|].
+        -- destruct Tle as (j & Hj & Hi & Hrj & Hmax). exists j.
+           split; [apply Hcomp; left; exact Hj|]. split; [exact Hi|]. split; [exact Hrj|].
+           intros j' Hj' Hi'. apply Hcomp in Hj'.
+           destruct Hj' as [Hj'| ->]; [apply Hmax; assumption|congruence].
+        -- intros j Hj. apply Hcomp in Hj.
+           destruct Hj as [Hj| ->]; [apply Tle; exact Hj|exact Hni].
+      * intros _. right. split; [reflexivity|]. exists k.
+        split; [apply Hcomp; right; reflexivity|rewrite Hres; reflexivity].
+      * discriminate.
+Qed.
+
+Lemma tinv_step max interval fs t tn l t' :
+  TInv max fs t -> returned (ts t) = None -> list_min (event_times fs t) = Some tn ->
+  In l (ready fs t tn) -> tstep interval t l tn = Some t' -> TInv max fs t'.
+Proof.
+  intros T Hret Hmin Hin Hstep. apply ready_In in Hin.
+  destruct Hin as [(-> & Hs & Hd)|(k & -> & Hk & Hf)].
+  - eapply tinv_timer; eassumption.
+  - eapply tinv_complete; eassumption.
+Qed.
+
+(* every observation produced by the exploration is the final state of a timed run *)
+Lemma explore_final max interval fs fuel t o :
+  TInv max fs t -> In o (explore fuel interval fs t) ->
+  exists t' r, TInv max fs t' /\ returned (ts t') = Some r /\ o = mkObs (starts t') r (now t').
+Proof.
+  revert t; induction fuel as [|fuel IH]; intros t T Hin; cbn [explore] in Hin.
+  - destruct (returned (ts t)) as [r|] eqn:Hret; [|destruct Hin].
+    destruct Hin as [<-|[]]. exists t, r. auto.
+  - destruct (returned (ts t)) as [r|] eqn:Hret.
+    + destruct Hin as [<-|[]]. exists t, r. auto.
+    + destruct (list_min (event_times fs t)) as [tn|] eqn:Hmin; [|destruct Hin].
+      apply in_flat_map in Hin. destruct Hin as (l & Hl & Hin).
+      destruct (tstep interval t l tn) as [t1|] eqn:Hstep; [|destruct Hin].
+      apply (IH t1); [|exact Hin]. eapply tinv_step; eassumption.
+Qed.
+
+Lemma explore_sound max interval fs o :
+  In o (timed_runs max interval fs) -> PropObs max fs (o_starts o) (o_res o) (o_end o).
+Proof.
+  intros Hin. destruct (explore_final _ _ _ _ _ _ (tinv_init max interval fs) Hin) as (t' & r & T & Hret & ->).
+  cbn [o_starts o_res o_end]. apply (t_ret _ _ _ T). exact Hret.
+Qed.
+
+(* ... and of a schedule of the untimed semantics: Layer T refines Layer A *)
+Lemma explore_schedule max interval fs o :
+  In o (timed_runs max interval fs) ->
+  exists ls s, run (init max) ls = Some s /\ returned s = Some (o_res o) /\
+               started s = List.length (o_starts o).
+Proof.
+  intros Hin. destruct (explore_final _ _ _ _ _ _ (tinv_init max interval fs) Hin) as (t' & r & T & Hret & ->).
+  exists (rev (hist t')), (ts t'). cbn [o_starts o_res o_end].
+  split; [apply (t_run _ _ _ T)|]. split; [exact Hret|]. symmetry. apply (t_len _ _ _ T).
+Qed.
+
+Lemma accept_In max interval fs o : accept max interval fs o = true <-> In o (timed_runs max interval fs).
+Proof.
+  unfold accept. rewrite existsb_exists. split.
+  - intros (m & Hm & He). destruct (obs_eq_dec o m) as [->|]; [exact Hm|discriminate].
+  - intros H. exists o. split; [exact H|]. destruct (obs_eq_dec o o); [reflexivity|congruence].
+Qed.
+
+Lemma accept_sound max interval fs o :
+  accept max interval fs o = true -> PropObs max fs (o_starts o) (o_res o) (o_end o).
+Proof. intros H. apply accept_In in H. apply explore_sound in H. exact H. Qed.
+
+(* ---------------- completeness: every oracle's run is accepted, and it exists ---------------- *)
+
+Lemma timed_run_explore fuel oracle interval fs t o :
+  timed_run fuel oracle interval fs t = Some o -> In o (explore fuel interval fs t).
+Proof.
+  revert oracle t; induction fuel as [|fuel IH]; intros oracle t H; cbn [timed_run explore] in *.
+  - destruct (returned (ts t)); [inversion H; left; reflexivity|discriminate].
+  - destruct (returned (ts t)); [inversion H; left; reflexivity|].
+    destruct (list_min (event_times fs t)) as [tn|]; [|discriminate].
+    set (rd := ready fs t tn) in *.
+    destruct (nth_error rd _) as [l|] eqn:Hn; [|discriminate].
+    destruct (tstep interval t l tn) as [t1|] eqn:Hs; [|discriminate].
+    apply in_flat_map. exists l. split; [eapply nth_error_In; exact Hn|].
+    rewrite Hs. eapply IH. exact H.
+Qed.
+
+Lemma tstep_measure interval t l tn t' : tstep interval t l tn = Some t' -> measure (ts t') < measure (ts t).
+Proof.
+  unfold tstep. destruct (step (ts t) l) as [s'|] eqn:Hs; [|discriminate].
+  intros H; inversion H; subst t'. cbn [ts]. eapply step_measure. exact Hs.
+Qed.
+
+Lemma timed_run_total max fs interval fuel oracle t :
+  TInv max fs t -> measure (ts t) < fuel ->
+  exists o, timed_run fuel oracle interval fs t = Some o.
+Proof.
+  revert oracle t; induction fuel as [|fuel IH]; intros oracle t T Hm; [lia|].
+  cbn [timed_run]. destruct (returned (ts t)) as [r|] eqn:Hret; [eauto|].
+  pose proof (inv_reachable _ _ _ (t_run _ _ _ T)) as I.
+  destruct (execute_no_deadlock _ _ _ (t_run _ _ _ T) Hret) as [Hnd _].
+  destruct (list_min (event_times fs t)) as [tn|] eqn:Hmin.
+  - destruct (list_min_spec _ _ Hmin) as [Hin _].
+    set (rd := ready fs t tn).
+    assert (Hne : rd <> []).
+    { apply event_times_In in Hin. intros Hnil.
+      destruct Hin as [[Hs Hd]|[k [Hk Hf]]].
+      - assert (Hx : In Timer rd) by (apply ready_In; left; auto). rewrite Hnil in Hx. destruct Hx.
+      - assert (Hx : In (Complete k (fiber_res fs k)) rd) by (apply ready_In; right; exists k; auto).
+        rewrite Hnil in Hx. destruct Hx. }
+    set (i := match oracle with [] => 0 | c :: _ => c mod List.length rd end).
+    assert (Hi : i < List.length rd).
+    { destruct rd as [|x rd']; [congruence|]. subst i. destruct oracle; [cbn; lia|].
+      apply Nat.mod_upper_bound. discriminate. }
+    destruct (nth_error rd i) as [l|] eqn:Hn; [|apply nth_error_None in Hn; lia].
+    assert (Hl : In l (ready fs t tn)) by (eapply nth_error_In; exact Hn).
+    assert (Hst : exists t1, tstep interval t l tn = Some t1).
+    { unfold tstep. apply ready_In in Hl. destruct Hl as [(-> & Hs & Hd)|(k & -> & Hk & Hf)].
+      - unfold step, on_timer. rewrite Hret, Hs. destruct (retries (ts t)); eauto.
+      - unfold step, on_complete. rewrite Hret.
+        replace (mem k (running (ts t))) with true by (symmetry; apply mem_In; exact Hk).
+        destruct (fiber_res fs k) as [r|]; [destruct (can_be_ignored r)|]; eauto. }
+    destruct Hst as [t1 Hst]. rewrite Hst.
+    apply IH; [eapply tinv_step; eassumption|]. apply tstep_measure in Hst. lia.
+  - exfalso. apply list_min_none in Hmin. unfold event_times in Hmin.
+    apply app_eq_nil in Hmin. destruct Hmin as [H1 H2]. apply map_eq_nil in H2.
+    destruct (Hnd H2) as [Hs _]. rewrite Hs in H1. discriminate.
+Qed.
+
+Lemma accept_complete max interval fs oracle :
+  exists o, timed_run (fuel_for max) oracle interval fs (tinit max interval) = Some o /\
+            accept max interval fs o = true.
+Proof.
+  destruct (timed_run_total max fs interval (fuel_for max) oracle (tinit max interval)
+              (tinv_init max interval fs)) as [o Ho].
+  { unfold fuel_for, tinit, init, measure. cbn. lia. }
+  exists o. split; [exact Ho|]. apply accept_In. unfold timed_runs. eapply timed_run_explore. exact Ho.
+Qed.
+
+(* ---------------- the boolean property predicate of the driver ---------------- *)
+
+Lemma sumbool_true {A} (a b : A) (d : {a = b} + {a <> b}) : (if d then true else false) = true <-> a = b.
+Proof. destruct d; split; congruence. Qed.
+
+Lemma prop_obs_spec max fs sts r e :
+  prop_obs max fs (mkObs sts r e) = true <-> PropObs max fs sts r e.
+Proof.
+  unfold prop_obs, PropObs. cbn [o_starts o_res o_end].
+  set (n := List.length sts).
+  set (finish := fun k => (nth k sts 0 + fiber_dur fs k)%N).
+  change (finS fs sts) with finish.
+  set (reals := filter (fun k => is_real (fiber_res fs k)) (seq 0 n)).
+  set (igns := filter (fun k => is_ignorable (fiber_res fs k)) (seq 0 n)).
+  assert (Hre : forall k, In k reals <-> k < n /\ is_real (fiber_res fs k) = true).
+  { intros k. unfold reals. rewrite filter_In, in_seq. intuition lia. }
+  assert (Hig : forall k, In k igns <-> k < n /\ is_ignorable (fiber_res fs k) = true).
+  { intros k. unfold igns. rewrite filter_In, in_seq. intuition lia. }
+  assert (Hid : forall k, In k (seq 0 n) <-> k < n) by (intros k; rewrite in_seq; lia).
+  rewrite !andb_true_iff, Nat.leb_le, Nat.leb_le.
+  split.
+  - intros [[H1 H2] H]. split; [lia|].
+    destruct reals as [|x reals'] eqn:Hreals.
+    + right. rewrite !andb_true_iff in H. destruct H as [[[Ha Hb] Hc] Hd].
+      rewrite forallb_forall in Ha. rewrite existsb_exists in Hb.
+      split; [|split; [|split; [|split]]].
+      * intros k Hk. destruct (is_real (fiber_res fs k)) eqn:Hr; [|reflexivity].
+        exfalso. apply (proj2 (Hre k)); auto.
+      * intros k Hk. apply N.leb_le. apply Ha. apply Hid. exact Hk.
+      * destruct Hb as (k & Hk & He). exists k. split; [apply Hid; exact Hk|apply N.eqb_eq; exact He].
+      * apply orb_true_iff in Hc. destruct Hc as [Hc|Hc]; [left; apply Nat.eqb_eq; exact Hc|].
+        right. apply existsb_exists in Hc. destruct Hc as (k & Hk & He). exists k. split; [apply Hid; exact Hk|exact He].
+      * destruct igns as [|y igns'] eqn:Higns.
+        -- left. split; [|apply (sumbool_true _ _ (rres_eq_dec r (Err EmptyPlan))); exact Hd].
+           intros k Hk. destruct (is_ignorable (fiber_res fs k)) eqn:Hi; [|reflexivity].
+           exfalso. apply (proj2 (Hig k)); auto.
+        -- right. apply existsb_exists in Hd. destruct Hd as (j & Hj & Hd).
+           apply andb_true_iff in Hd. destruct Hd as [Hd1 Hd2].
+           apply sumbool_true in Hd1. rewrite forallb_forall in Hd2.
+           apply Hig in Hj. exists j. split; [tauto|]. split; [tauto|]. split; [exact Hd1|].
+           intros k Hk Hik. apply N.leb_le. apply Hd2. apply Hig. auto.
+    + left. apply existsb_exists in H. destruct H as (j & Hj & H).
+      rewrite !andb_true_iff in H. destruct H as [[Ha Hb] Hc].
+      apply sumbool_true in Ha. apply N.eqb_eq in Hb. rewrite forallb_forall in Hc.
+      apply Hre in Hj. exists j. split; [tauto|]. split; [tauto|]. split; [exact Ha|]. split; [exact Hb|].
+      intros k Hk Hrk. apply N.leb_le. apply Hc. apply Hre. auto.
+  - intros [Hn H]. split; [split; lia|].
+    destruct H as [(j & Hj & Hjr & Hres & Hfin & Hmin)|(Hnr & Hle & Hex & Hstop & Hlast)].
+    + assert (Hjin : In j reals) by (apply Hre; auto).
+      destruct reals as [|x reals'] eqn:Hreals; [destruct Hjin|].
+      apply existsb_exists. exists j. split; [exact Hjin|].
+      rewrite !andb_true_iff. split; [split|].
+      * apply sumbool_true. exact Hres.
+      * apply N.eqb_eq. exact Hfin.
+      * apply forallb_forall. intros k Hk. apply Hre in Hk. apply N.leb_le. apply Hmin; tauto.
+    + destruct reals as [|x reals'] eqn:Hreals.
+      * rewrite !andb_true_iff. split; [split; [split|]|].
+        -- apply forallb_forall. intros k Hk. apply N.leb_le. apply Hle. apply Hid. exact Hk.
+        -- destruct Hex as (k & Hk & He). apply existsb_exists. exists k.
+           split; [apply Hid; exact Hk|apply N.eqb_eq; exact He].
+        -- apply orb_true_iff. destruct Hstop as [Hs|(k & Hk & He)]; [left; apply Nat.eqb_eq; exact Hs|].
+           right. apply existsb_exists. exists k. split; [apply Hid; exact Hk|exact He].
+        -- destruct Hlast as [[Hni ->]|(j & Hj & Hji & Hres & Hmax)].
+           ++ destruct igns as [|y igns'] eqn:Higns.
+              ** apply sumbool_true. reflexivity.
+              ** exfalso. assert (Hy : In y (y :: igns')) by (left; reflexivity).
+                 apply Hig in Hy. rewrite (Hni y) in Hy; [destruct Hy; discriminate|tauto].
+           ++ assert (Hjin : In j igns) by (apply Hig; auto).
+              destruct igns as [|y igns'] eqn:Higns; [destruct Hjin|].
+              apply existsb_exists. exists j. split; [exact Hjin|].
+              apply andb_true_iff. split; [apply sumbool_true; exact Hres|].
+              apply forallb_forall. intros k Hk. apply Hig in Hk. apply N.leb_le. apply Hmax; tauto.
+      * exfalso. assert (Hx : In x (x :: reals')) by (left; reflexivity).
+        apply Hre in Hx. rewrite (Hnr x) in Hx; [destruct Hx; discriminate|tauto].
+Qed.
+
+Lemma accept_sound_bool max interval fs o :
+  accept max interval fs o = true -> prop_obs max fs o = true.
+Proof.
+  intros H. apply accept_sound in H. destruct o as [sts r e]. apply prop_obs_spec. exact H.
+Qed.
